@@ -116,17 +116,26 @@ structure Idx where
   nameOff : Nat             -- `_name_table_offset` (v2/v3)
   deriving Repr
 
-/-- `_read_fan_out_table(start)`: `struct.unpack(">L", short slice)` raises `struct.error`. -/
-def readFan (c : Bytes) (start : Nat) : Except Err (List Nat) :=
-  (List.range Gen.Pack.fanoutSize).mapM (fun i =>
+/-- `_read_fan_out_table(start)`, entries `i, i+1, …` (`k` of them): `struct.unpack(">L", short slice)`
+raises `struct.error`. -/
+def readFanFrom (c : Bytes) (start : Nat) : Nat → Nat → Except Err (List Nat)
+  | 0, _ => .ok []
+  | k + 1, i =>
     match beAt Gen.Pack.fanEntryBytes c (start + i * Gen.Pack.fanEntryBytes) with
-    | some v => Except.ok v
-    | none => Except.error Err.format)
+    | none => .error .format
+    | some v =>
+      match readFanFrom c start k (i + 1) with
+      | .error e => .error e
+      | .ok r => .ok (v :: r)
 
-def lastOr0 : List Nat → Nat
-  | [] => 0
-  | [x] => x
-  | _ :: r => lastOr0 r
+def readFan (c : Bytes) (start : Nat) : Except Err (List Nat) :=
+  readFanFrom c start Gen.Pack.fanoutSize 0
+
+/-- `self._fan_out_table[-1]` (the table has `fanoutSize` entries). -/
+def lastOr0 (fan : List Nat) : Nat :=
+  match fan[Gen.Pack.fanoutSize - 1]? with
+  | some v => v
+  | none => 0
 
 /-- `load_pack_index_file` + the constructor of the selected class.  `hs` is the `oid_length` of the
 `object_format` the caller passes. -/
